@@ -4,6 +4,9 @@ import Dcg.Proofs.Repr
 import Dcg.Model.Sites
 import Dcg.Gen.EscTables
 import Dcg.Gen.Templates
+import Dcg.Proofs.TemplateLex
+import Dcg.Proofs.TemplateCheckLex
+import Dcg.Proofs.TemplateCheckTable
 /-
 C10 — text taken from the input ends up as data, never as code.
 Only property theorems live here; helper lemmas are in Dcg/Proofs/Escape.lean.
@@ -134,5 +137,67 @@ theorem templates_end_neutral :
 theorem comment_ends_at_newline :
     comment ("a\nimport os".toList ++ ['\n']) = ("a".toList, "import os\n".toList) := by
   decide
+
+
+/-! ### The lexical analysis of the templates, in Lean, for all environments
+
+The templates are part of the model (`Gen/TemplateAst`, regenerated from the sources by jinja2's
+own parser) and are given meaning by the interpreter `Model.Template.renderTemplate`.  The
+lexical-state analysis is an abstract interpretation of the template AST over the lexer automaton
+`Model/TemplateLex.LQ`, proved sound with respect to the interpreter once and for all
+(`Proofs/TemplateAbs.absL_sound`) and evaluated by the kernel on every template. -/
+
+section TemplateLex
+open Dcg.Model.TemplateSyntax Dcg.Model.Template Dcg.Model.TemplateAbs Dcg.Model.TemplateLex
+open Dcg.Proofs.TemplateAbs Dcg.Proofs.TemplateLex
+
+/-- every template lies inside the modelled Jinja fragment (no `unsupported` node) -/
+theorem templates_in_fragment :
+    Dcg.Gen.TemplateAst.templates.all (fun t => Tpl.unsupportedCountL t.2 == 0) = true :=
+  Dcg.Proofs.TemplateCheckLex.no_unsupported
+
+/-- **Input text cannot leave its lexical context — for every template and EVERY environment.**
+In any rendering in which each interpolated value is lexically neutral for the class of its site
+(`LexHyp`: identifiers/type hints/repr values are neutral in code state, escaped keys inside
+`'…'`, escaped docstring text inside a triple-quoted string, comment lines inside a comment),
+the Python lexer ends in code state or in a `#` comment: every literal the template opens is
+closed by the template's own quotes, whatever the environment makes of the `if`/`for` structure.
+That the analysis succeeds also means that at every `{{ … }}` site every lexical state that the
+control flow can produce is one that `Model/Sites.allowed` permits for the site's class. -/
+theorem template_lexically_closed (name : String) (t : List Tpl)
+    (ht : Dcg.Gen.TemplateAst.templates.lookup name = some t) (ctx : List (String × Val)) (o : Out)
+    (hr : renderTemplate ctx t = .ok o) (hv : ∀ p ∈ o.slots, LexHyp p.1 p.2) :
+    lexGood (lexAuto.run .code o.text) = true := by
+  have hc : check lexAuto .code lexGood [] [] t = true := by
+    have hall := Dcg.Proofs.TemplateCheckLex.lexCheckAll_ok
+    unfold Dcg.Proofs.TemplateCheckLex.lexCheckAll at hall
+    have hm : (name, t) ∈ Dcg.Gen.TemplateAst.templates := mem_of_lookup ht
+    exact List.all_eq_true.mp hall (name, t) hm
+  exact lex_check_sound [] [] t hc ctx o hr (Consistent_nil _) hv
+
+/-- **The Python site table is what the Lean analysis computes.** The table `Gen/Templates` (sites
+with their lexical states, final states) written by the data-flow analysis in
+`vlib/translate/templates.py` equals, row by row, the per-site state sets of the sound Lean
+analysis over the template ASTs — the Python analysis is checked by the kernel on every run instead
+of being trusted, and `site_safe` above is a statement about the verified analysis. -/
+theorem python_site_table_is_lean_analysis : Dcg.Proofs.TemplateCheckTable.tableAgrees = true :=
+  Dcg.Proofs.TemplateCheckTable.tableAgrees_ok
+
+/-- values of plain characters (no quote, backslash, `#`, line break) — identifiers, dotted names,
+base lists, type hints without string literals — satisfy the hypothesis at every site -/
+theorem plain_values_lexically_neutral (e : Expr) (v : List Char)
+    (h : ∀ c ∈ v, plainCh c = true) : LexHyp e v := lexHyp_of_plain e v h
+
+/-- non-vacuity: the hypothesis holds for an escaped docstring text that ends in two quotes and
+contains a newline, at a docstring site; and for a key inside `'…'` -/
+example : LexHyp (.filter (.filter (.name "description") .escapeDocstring) (.indent 4))
+    "say \"\"\\\"hi\n    there\"\"".toList := lexHypB_sound (by decide +kernel)
+example : LexHyp (.attr (.name "field") "key") "a\\'b".toList := lexHypB_sound (by decide +kernel)
+/-- …and fails for an unescaped triple quote in a docstring, and for a raw quote in a key -/
+example : lexHypB (.filter (.filter (.name "description") .escapeDocstring) (.indent 4)) "a\"\"\"b".toList = false := by
+  decide +kernel
+example : lexHypB (.attr (.name "field") "key") "a'b".toList = false := by decide +kernel
+
+end TemplateLex
 
 end Dcg.Props.C10
